@@ -38,6 +38,8 @@ def gen_cases(tier, seed):
     for sh in IR.shapes(3, 2, 2, ('T',), max_ext=2):
         if sh[1] or sh[2]:
             yield ('D', sh)
+    for wshape in E_SHAPES:
+        yield ('E', wshape)
 
 
 def describe(case):
@@ -54,6 +56,8 @@ def run_case(case):
         part_c(case[1], case[2], case[3], r, case)
     elif case[0] == 'A1':
         judge_roundtrip(build_a(*case[1:]), case[2] == (1 << len(case[1][0])) - 1 and case[3] == (1 << len(case[1][1])) - 1, r, case, case)
+    elif case[0] == 'E':
+        part_e(case[1], r, case)
     else:
         part_d(case[1], r, case)
     return r
@@ -324,13 +328,17 @@ def part_d(sh, r, case):
         spots += [('edges', ei, k) for k in range(len(e['attachments']))]
     for spot in spots:
         for bad in (-n - 1, -1, n, n + 1):
+          for strip in (False, True):
             jj = json.loads(json.dumps(j))
             rr = jj['grammar']['rules'][0]['rhs']
+            if strip:         # the same file with implicit node / edge ids
+                for x in rr['nodes'] + rr['edges']:
+                    x.pop('id', None)
             if spot[0] == 'externals':
                 rr['externals'][spot[2]] = bad
             else:
                 rr['edges'][spot[1]]['attachments'][spot[2]] = bad
-            key = ('D', sh, spot, bad)
+            key = ('D', sh, spot, bad, strip)
             for fn in ('json_to_fgg', 'json_to_hrg'):
                 try:
                     if fn == 'json_to_fgg':
@@ -342,3 +350,41 @@ def part_d(sh, r, case):
                     r.ok(key + (fn,), outcome='rejected', nontrivial=True)
                 except Exception as e:
                     r.exc(e, 'malformed', case, key)
+
+
+# weights with unit axes and non-zero defaults
+
+E_SHAPES = [(1, 2, 2), (2, 1, 2), (2, 2, 1), (1, 3), (3, 1), (1, 1, 2), (1, 2), (2, 1), (1,), (1, 1)]
+
+
+def part_e(wshape, r, case):
+    """A factor whose weights are any pattern of wshape (size-1 domains included) with default in {0, 0.5, +-inf}:
+    to_json writes the denoted tensor and json_to_fgg reads it back."""
+    import torch, fggs
+    from fggs.indices import PatternedTensor
+    from fggs.factors import FiniteFactor
+    from fggs.domains import RangeDomain
+    doms = [RangeDomain(n) for n in wshape]
+    for p in P.patterns_for_shape(wshape):
+        for default in (0., 0.5, math.inf, -math.inf):
+            for storage in ('contig', 'permuted', 'expanded'):
+                if storage != 'contig' and len(p[0]) < 2:
+                    continue
+                key = ('E', wshape, p, default, storage)
+                try:
+                    t = P.instantiate(p, default, torch.float64, storage=storage)
+                    dense = t.to_dense()
+                    j = json.loads(json.dumps(FiniteFactor(doms, t).to_json()))
+                    old = torch.get_default_dtype()
+                    torch.set_default_dtype(torch.float64)
+                    try:
+                        back = fggs.formats.json_to_weights(j['weights'])
+                    finally:
+                        torch.set_default_dtype(old)
+                    bd = back.to_dense() if isinstance(back, PatternedTensor) else torch.as_tensor(back)
+                    if tuple(bd.shape) != tuple(dense.shape) or not torch.equal(bd, dense):
+                        r.bad('weights-not-preserved', 'factors.weights_to_json', 'unit-axis', '%s default %r %s: wrote %r, denotes %r' % (P.show(p), default, storage, j['weights'], dense.tolist()), case, key)
+                    else:
+                        r.ok(key, outcome='weights', nontrivial=dense.numel() > 0)
+                except Exception as e:
+                    r.exc(e, 'unit-axis', case, key)
